@@ -34,13 +34,15 @@ package pubsub
 
 // The validation-overload gater only ever suppresses payload, never control traffic.
 //@ func (*peerGater).AcceptFrom
-//@   property C09
+//@   property C09 C12
+//@   safe
 //@   noframe
 //@   ensures payload-only: result == AcceptAll || result == AcceptControl
 //@   ensures no-gater: pg == nil ==> result == AcceptAll
 
 //@ func (*GossipSubRouter).AcceptFrom
-//@   property C09
+//@   property C09 C12
+//@   safe
 //@   noframe
 //@   ensures direct-always: p in old(gs.direct) ==> result == AcceptAll
 //@   ensures graylisted: !(p in old(gs.direct)) && old(score(gs, p)) < old(gs.graylistThreshold) ==> result == AcceptNone &&
@@ -128,14 +130,21 @@ package pubsub
 // backoff it stated (else the configured one) is recorded for each; PX is followed only at or
 // above the accept-PX threshold.
 //@ func (*GossipSubRouter).handlePrune
-//@   property C07 C08 C09 C19
+//@   property C07 C08 C09 C19 C12
+//@   safe
+//@   requires wf: wfGS(gs) && gs.params.PrunePeers >= 0 && gs.peers != nil
 //@   loop 1 step removal-traced: !(forall t string :: has(gs.mesh, t, p) == iter(has(gs.mesh, t, p))) ==>
 //@        calls((*pubsubTracer).Prune) == iter(calls((*pubsubTracer).Prune)) + 1 && lastarg((*pubsubTracer).Prune, 1) == p &&
 //@        (forall t string :: t == lastarg((*pubsubTracer).Prune, 2) ==> iter(has(gs.mesh, t, p)) && !has(gs.mesh, t, p))
 //@   loop 1 step at-most-one-event: calls((*pubsubTracer).Prune) - iter(calls((*pubsubTracer).Prune)) <= 1
 //@   requires sep: sepMesh(gs) && sepBackoff(gs) && validBackoffParams(gs)
-//@   requires ctl: forall i int :: 0 <= i && i < len(ctl.Prune) ==> ctl.Prune[i] != nil
+//@   requires ctl: forall i int :: 0 <= i && i < len(ctl.Prune) ==> ctl.Prune[i] != nil && (forall j int :: 0 <= j && j < len(ctl.Prune[i].Peers) ==> ctl.Prune[i].Peers[j] != nil)
+//@   requires own-arrays: forall i int, k int :: 0 <= i && i < k && k < len(ctl.Prune) ==> arr(ctl.Prune[i].Peers) != arr(ctl.Prune[k].Peers) || len(ctl.Prune[i].Peers) == 0 || len(ctl.Prune[k].Peers) == 0
 //@   noframe
+//@   loop 1 invariant wf: wfGS(gs) && gs.params.PrunePeers >= 0 && gs.peers != nil && (ctl != nil ==> ctl.Prune == old(ctl.Prune)) &&
+//@        (forall i int :: ctl != nil && 0 <= i && i < len(ctl.Prune) ==> ctl.Prune[i] == old(ctl.Prune[i]) && ctl.Prune[i] != nil && ctl.Prune[i].Peers == old(ctl.Prune[i].Peers) &&
+//@            (forall j int :: 0 <= j && j < len(ctl.Prune[i].Peers) ==> ctl.Prune[i].Peers[j] != nil))
+//@   loop 1 invariant own-arrays: forall i int, k int :: ctl != nil && 0 <= i && i < k && k < len(ctl.Prune) ==> arr(ctl.Prune[i].Peers) != arr(ctl.Prune[k].Peers) || len(ctl.Prune[i].Peers) == 0 || len(ctl.Prune[k].Peers) == 0
 //@   loop 1 invariant others: forall t string, q string :: q != p ==> has(gs.mesh, t, q) == old(has(gs.mesh, t, q))
 //@   loop 1 invariant no-add: forall t string :: has(gs.mesh, t, p) ==> old(has(gs.mesh, t, p))
 //@   loop 1 invariant topics: forall t string :: (t in gs.mesh) == old(t in gs.mesh) && gs.mesh[t] == old(gs.mesh[t])
@@ -168,7 +177,9 @@ package pubsub
 //@      old(t in gs.mesh) && !old(p in gs.direct) && !(old(has(gs.backoff, t, p)) && at < old(gs.backoff[t][p])) && sc >= 0.0 &&
 //@      (old(len(gs.mesh[t])) < old(gs.params.Dhi) || old(gs.outbound[p]))
 //@ func (*GossipSubRouter).handleGraft
-//@   property C07 C08 C09 C19
+//@   property C07 C08 C09 C19 C12
+//@   safe
+//@   requires wf: wfGS(gs)
 //@   requires sep: sepMesh(gs) && sepBackoff(gs) && validBackoffParams(gs)
 //@   requires ctl: forall i int :: 0 <= i && i < len(ctl.Graft) ==> ctl.Graft[i] != nil
 //@   noframe
@@ -178,13 +189,15 @@ package pubsub
 //@   loop 1 invariant admitted: forall t string :: has(gs.mesh, t, p) && !old(has(gs.mesh, t, p)) ==> old(admissible(gs, t, p, score, now))
 //@   loop 1 invariant sizes: forall t string :: t in gs.mesh ==> len(gs.mesh[t]) == old(len(gs.mesh[t])) + ite(has(gs.mesh, t, p) && !old(has(gs.mesh, t, p)), 1, 0)
 //@   loop 1 invariant sep: sepMesh(gs) && sepBackoff(gs) && validBackoffParams(gs)
-//@   loop 1 invariant stable: gs.direct == old(gs.direct) && (p in gs.direct) == old(p in gs.direct) && gs.outbound[p] == old(gs.outbound[p]) && gs.params.Dhi == old(gs.params.Dhi)
+//@   loop 1 invariant stable: gs.direct == old(gs.direct) && (p in gs.direct) == old(p in gs.direct) && gs.outbound[p] == old(gs.outbound[p]) && gs.params.Dhi == old(gs.params.Dhi) &&
+//@        ctl.Prune == old(ctl.Prune) && (forall i int :: 0 <= i && i < len(ctl.Prune) ==> ctl.Prune[i] == old(ctl.Prune[i]))
 //@   loop 1 invariant backoff-grows: forall t string, q string :: old(has(gs.backoff, t, q)) ==> has(gs.backoff, t, q) && gs.backoff[t][q] >= old(gs.backoff[t][q])
 //@   loop 1 invariant backoff-only-p: forall t string, q string :: q != p ==> has(gs.backoff, t, q) == old(has(gs.backoff, t, q)) && gs.backoff[t][q] == old(gs.backoff[t][q])
 //@   loop 1 invariant score-read-once: score == old(score(gs, p)) && now == lastret(time.Now)
 //@   loop 1 invariant nopx-when-bad: score < 0.0 && len(prune) > 0 ==> !doPX
 //@   loop 1 invariant nopx-when-penalised: calls((*peerScore).AddPenalty) > old(calls((*peerScore).AddPenalty)) ==> !doPX && len(prune) > 0
-//@   loop 2 invariant pruning: calls((*GossipSubRouter).makePrune) - old(calls((*GossipSubRouter).makePrune)) == rangeindex + 1 && rangeindex + 1 <= len(prune) && len(cprune) == rangeindex + 1
+//@   loop 2 invariant pruning: calls((*GossipSubRouter).makePrune) - old(calls((*GossipSubRouter).makePrune)) == rangeindex + 1 && rangeindex + 1 <= len(prune) && len(cprune) == rangeindex + 1 &&
+//@        (cap(cprune) == 0 || fresh(arr(cprune))) && ctl.Prune == old(ctl.Prune) && (forall i int :: 0 <= i && i < len(ctl.Prune) ==> ctl.Prune[i] == old(ctl.Prune[i]))
 //@   loop 1 step graft-traced-iff-admitted: calls((*pubsubTracer).Graft) - iter(calls((*pubsubTracer).Graft)) ==
 //@        ite((forall t string :: has(gs.mesh, t, p) == iter(has(gs.mesh, t, p))), 0, 1)
 //@   loop 1 step one-admission-per-entry: forall t1 string, t2 string :: has(gs.mesh, t1, p) && !iter(has(gs.mesh, t1, p)) && has(gs.mesh, t2, p) && !iter(has(gs.mesh, t2, p)) ==> t1 == t2
@@ -200,6 +213,7 @@ package pubsub
 //@   ensures admitted-only-if: forall t string :: has(gs.mesh, t, p) && !old(has(gs.mesh, t, p)) ==> wasAdmissible(gs, t, p, old(score(gs, p)), lastret(time.Now))
 //@   ensures backoff-grows: forall t string, q string :: old(has(gs.backoff, t, q)) ==> has(gs.backoff, t, q) && gs.backoff[t][q] >= old(gs.backoff[t][q])
 //@   ensures response: result == nil || len(result) == len(prune)
+//@   ensures request-untouched: ctl.Prune == old(ctl.Prune) && (forall i int :: 0 <= i && i < len(ctl.Prune) ==> ctl.Prune[i] == old(ctl.Prune[i]))
 //@   ensures sep: sepMesh(gs) && sepBackoff(gs)
 
 // ---- C07/C08: Join and Leave ----
@@ -368,7 +382,9 @@ package pubsub
 // (unsubscribe vs. prune backoff); v1.0 peers get neither PX nor backoff; PX records are attached
 // only when doPX.
 //@ func (*GossipSubRouter).makePrune
-//@   property C08 C09
+//@   property C08 C09 C12
+//@   safe
+//@   requires wf: wfGS(gs)
 //@   noframe
 //@   at call feature#1 assert px-feature-of-peer: $arg0 == GossipSubFeaturePX && $arg1 == gs.peers[p]
 //@   ensures fresh: fresh(result) && result.TopicID != nil && deref(result.TopicID) == topic
@@ -403,7 +419,9 @@ package pubsub
 // topics, among the first MaxIHaveLength ids of each IHAVE, are requested; the promise tracker is
 // given the non-empty request list.
 //@ func (*GossipSubRouter).handleIHave
-//@   property C09 C17
+//@   property C09 C17 C12
+//@   safe
+//@   requires wf: wfGS(gs)
 //@   requires maps: gs.peerhave != nil && gs.iasked != nil && gs.peerhave != gs.iasked && gs.params.MaxIHaveLength >= 0
 //@   requires ctl: ctl == nil || (forall i int :: 0 <= i && i < len(ctl.Ihave) ==> ctl.Ihave[i] != nil)
 //@   noframe
@@ -438,12 +456,14 @@ package pubsub
 // cache is consulted (and incremented) only for messages the peer has not declared unwanted; a
 // message is returned only if it is cached; requests beyond GossipRetransmission are skipped.
 //@ func (*GossipSubRouter).handleIWant
-//@   property C09 C17
+//@   property C09 C17 C12
+//@   safe
+//@   requires wf: wfGS(gs)
 //@   requires cache: gs.mcache != nil && mcRep(gs.mcache)
 //@   requires ctl: ctl == nil || (forall i int :: 0 <= i && i < len(ctl.Iwant) ==> ctl.Iwant[i] != nil)
 //@   noframe
-//@   loop 1 invariant serving: servingInv(gs, p, ihave)
-//@   loop 2 invariant serving: servingInv(gs, p, ihave)
+//@   loop 1 invariant serving: servingInv(gs, p, ihave) && wfGS(gs)
+//@   loop 2 invariant serving: servingInv(gs, p, ihave) && wfGS(gs)
 //@   at call GetForPeer assert wanted: $arg2 == p && $arg1 == mid && !has(gs.unwanted, p, csum(mid))
 //@   at call Debug#2 assert over-limit: lastret((*MessageCache).GetForPeer, 1) > gs.params.GossipRetransmission
 //@   ensures below-gossip-threshold: old(score(gs, p)) < old(gs.gossipThreshold) ==> result == nil &&
@@ -459,7 +479,9 @@ package pubsub
 // handleIDontWant: at most MaxIDontWantMessages messages honoured per peer per heartbeat, at most
 // MaxIDontWantLength ids recorded per message, each with the configured TTL.
 //@ func (*GossipSubRouter).handleIDontWant
-//@   property C17
+//@   property C17 C12
+//@   safe
+//@   requires wf: wfGS(gs)
 //@   requires maps: gs.peerdontwant != nil && gs.unwanted != nil && gs.params.MaxIDontWantLength >= 0
 //@   requires ctl: ctl == nil || (forall i int :: 0 <= i && i < len(ctl.Idontwant) ==> ctl.Idontwant[i] != nil)
 //@   noframe
@@ -634,6 +656,12 @@ package pubsub
 //@   loop 4 invariant gossip: tosend != nil && (forall q string :: q in tosend ==> q in tmap || q in gmap) && (forall q string :: q in gs.direct && q in tmap ==> q in tosend) &&
 //@        (forall q string :: $visited[q] && !has(gs.unwanted, q, csum) ==> q in tosend) &&
 //@        (forall q string :: q in tosend && !(q in tmap) ==> !has(gs.unwanted, q, csum))
+//@   loop 1 step flood-publish-included: calls((*peerScore).Score) > iter(calls((*peerScore).Score)) && lastret((*peerScore).Score) >= gs.publishThreshold ==>
+//@        lastarg((*peerScore).Score, 1) in tosend
+//@   loop 3 step floodsub-peer-included: calls((*peerScore).Score) > iter(calls((*peerScore).Score)) && lastret((*peerScore).Score) >= gs.publishThreshold ==>
+//@        lastarg((*peerScore).Score, 1) in tosend && !lastret(dyn:feature)
+//@   loop 3 step floodsub-only-with-score: forall q string :: q in tosend && !iter(q in tosend) ==>
+//@        calls((*peerScore).Score) == iter(calls((*peerScore).Score)) + 1 && lastarg((*peerScore).Score, 1) == q && lastret((*peerScore).Score) >= gs.publishThreshold && !lastret(dyn:feature)
 //@   loop 5 invariant sending: out == lastret(rpcWithMessages) && out != nil
 //@   loop 5 step each-recipient-once: forall q string :: q == pid && q != from && q != bytestr(msg.Message.From) &&
 //@        !lastret((*GossipSubRouter).iSupportSendingPartial) ==> calls(dyn:yield) == iter(calls(dyn:yield)) + 1 && lastarg(dyn:yield, 0) == q && lastarg(dyn:yield, 1) == out
@@ -659,3 +687,40 @@ package pubsub
 //@   ensures registered: len(result) > 0 ==> topic in gs.fanout && gs.fanout[topic] == result
 //@   ensures published-now: topic in gs.lastpub && gs.lastpub[topic] == lastret(time.Now)
 //@   ensures other-topics: forall t string :: t != topic ==> (t in gs.fanout) == old(t in gs.fanout) && gs.fanout[t] == old(gs.fanout[t])
+
+//@ func shufflePeerInfo
+//@   property C09 C12
+//@   safe
+//@   modifies elems(peers)
+//@   loop 1 invariant members: forall i int :: 0 <= i && i < len(peers) ==> (exists j int :: 0 <= j && j < len(peers) && peers[i] == old(peers[j]))
+//@   ensures members: forall i int :: 0 <= i && i < len(peers) ==> (exists j int :: 0 <= j && j < len(peers) && peers[i] == old(peers[j]))
+
+// pxConnect (C09/C12): at most PrunePeers of the offered records are considered; a connection
+// attempt is queued only for a peer we are not connected to, and it carries a signed record only
+// if the record's envelope was consumed without error, is a PeerRecord and names exactly the
+// advertised peer ID; bogus records never panic the handler.
+//@ func (*GossipSubRouter).pxConnect
+//@   property C09 C12
+//@   safe
+//@   requires wf: wfGS(gs) && gs.params.PrunePeers >= 0 && gs.peers != nil
+//@   requires decoded: forall i int :: 0 <= i && i < len(peers) ==> peers[i] != nil
+//@   modifies elems(peers)
+//@   ensures still-decoded: forall i int :: 0 <= i && i < len(peers) ==> peers[i] != nil
+//@   loop 1 invariant considering: wfGS(gs) && gs.peers != nil && len(peers) <= gs.params.PrunePeers && (forall i int :: 0 <= i && i < len(peers) ==> peers[i] != nil) &&
+//@        (cap(toconnect) == 0 || fresh(arr(toconnect)))
+//@   loop 1 step record-valid-for-peer: forall i int :: len(toconnect) == iter(len(toconnect)) + 1 && i == iter(len(toconnect)) ==>
+//@        !(toconnect[i].p in gs.peers) && toconnect[i].p == bytestr(peers[rangeindex].PeerID) &&
+//@        (toconnect[i].spr != nil ==> calls(record.ConsumeEnvelope) == iter(calls(record.ConsumeEnvelope)) + 1 && lastret(record.ConsumeEnvelope, 2) == nil &&
+//@            toconnect[i].spr == lastret(record.ConsumeEnvelope, 0))
+// (that the record's PeerID equals the advertised ID is checked by the code on the path to the
+// append - `if rec.PeerID != p { continue }` - but is not expressible here: pointer types cannot be
+// written in typeis/unbox)
+//@   loop 2 invariant sending: wfGS(gs)
+
+// GossipSubParams.validate: what an accepted configuration guarantees to the handlers.
+//@ func (*GossipSubParams).validate
+//@   property C07 C12
+//@   modifies nothing
+//@   ensures accepted: result == nil ==> params.PrunePeers >= 0 && params.HistoryGossip <= params.HistoryLength && params.Dscore <= params.Dhi &&
+//@        ((params.D == 0 && params.Dlo == 0 && params.Dhi == 0 && params.Dout == 0) ||
+//@         (params.Dlo <= params.D && params.D <= params.Dhi && params.Dout < params.Dlo && 2 * params.Dout < params.D))
